@@ -366,6 +366,47 @@ def bounded_roundtrips(seed, quick):
                             pr = ["exception %r at %s:%s" % (ex, tb[-1].filename, tb[-1].lineno)]
                     if pr:
                         return ev, dict(what="op4 ASCII write -> read is not the identity to the requested digits (digits=%d, long strings)" % digits, binary=False, sparse=sparse_, complex=cplx, digits=digits, problems=pr[:4])
+        # element types of the input: every NumPy real / complex / integer / bool type (values exactly representable in double) must be written as the same numbers
+        base_ = np.array([[1.5, 0.0, -2.25], [0.0, 4.0, 0.5], [3.0, -1.0, 0.0], [0.0, 0.0, 8.0]])
+        for dt_ in ("float64", "float32", "float16", "longdouble", "int64", "int32", "int8", "uint8", "bool", "complex128", "complex64", "clongdouble"):
+            if dt_.startswith("c"):
+                Md = (base_ + 1j * base_[::-1]).astype(dt_)
+            elif dt_ == "bool":
+                Md = base_ != 0
+            elif "int" in dt_:
+                Md = np.abs(base_ * 4).astype(dt_) if dt_.startswith("u") else (base_ * 4).astype(dt_)
+            else:
+                Md = base_.astype(dt_)
+            want_ = Md.astype(complex if dt_.startswith("c") else float)
+            for binary in (True, False):
+                for sparse_ in ("dense", "bigmat", "nonbigmat"):
+                    for inp_ in (Md, sps.coo_matrix(Md) if dt_ not in ("float16", "longdouble", "clongdouble", "bool", "int8", "uint8") else None):
+                        if inp_ is None:
+                            continue
+                        ev += 1
+                        with warnings.catch_warnings():
+                            warnings.simplefilter("ignore")
+                            try:
+                                pr = _roundtrip(op4, tmp, ["dt"], [inp_], None, binary, "<" if binary else "=", sparse_, 16, (False, True), ref=[want_])
+                            except Exception as ex:
+                                tb = traceback.extract_tb(ex.__traceback__)
+                                pr = ["exception %r at %s:%s" % (ex, tb[-1].filename, tb[-1].lineno)]
+                        if pr:
+                            return ev, dict(what="op4 write -> read is not the identity for input of element type %s" % dt_, binary=binary, sparse=sparse_, scipy_input=inp_ is not Md, problems=pr[:3])
+        # ASCII nonbigmat / bigmat with a run of >= 16384 consecutive non-zeros (string header above 2^31 in the nonbigmat layout), ndarray and SciPy input
+        vlong = np.zeros((20000, 2)); vlong[100:16600, 0] = rng.randn(16500); vlong[5, 1] = 2.0
+        for sparse_ in ("nonbigmat", "bigmat"):
+            for inp_ in (vlong, sps.coo_matrix(vlong), sps.csc_matrix(vlong)):
+                ev += 1
+                with warnings.catch_warnings():
+                    warnings.simplefilter("ignore")
+                    try:
+                        pr = _roundtrip(op4, tmp, ["vlong"], [inp_], None, False, "=", sparse_, 16, (False, True), ref=[vlong])
+                    except Exception as ex:
+                        tb = traceback.extract_tb(ex.__traceback__)
+                        pr = ["exception %r at %s:%s" % (ex, tb[-1].filename, tb[-1].lineno)]
+                if pr:
+                    return ev, dict(what="op4 ASCII write -> read is not the identity for a column with a run of 16500 non-zeros", sparse=sparse_, input=type(inp_).__name__, problems=pr[:3])
         # repeated names through the list interface
         fn = os.path.join(tmp, "rep.op4")
         A, B = np.arange(6.0).reshape(2, 3), np.eye(2)
